@@ -114,15 +114,33 @@ func runC17(c *Ctx) {
 // runC17Key interprets the accumulation function with a symbolic member.
 func runC17Key(c *Ctx) {
 	p := c.P
-	fn := p.Method("valid", "validCommon", "initValid2FieldsMap")
+	fn, regFields := groupRegistrar(p)
 	if fn == nil {
-		c.Unk("C17-KEY", "(*valid.validCommon).initValid2FieldsMap", "key", token.NoPos, "accumulation function not found")
+		c.Unk("C17-KEY", "(*valid.validCommon).initValid2FieldsMap", "key", token.NoPos, "accumulation function not found (no function updates the group map)")
 		return
 	}
 	c.Funcs[fnName(fn)] = true
 	w := NewWalkEnv(p)
 	in := w.In
-	args := []AVal{Sym{K: "v", T: fn.Params[0].Type()}, Ptr{C: &Cell{Label: "data", T: fn.Params[1].Type().(*types.Pointer).Elem()}}}
+	var args []AVal
+	ruleTerm, pathTerm := "data.validName", "data.objName"
+	if regFields == nil {
+		args = []AVal{Sym{K: "v", T: fn.Params[0].Type()}, Ptr{C: &Cell{Label: "data", T: fn.Params[1].Type().(*types.Pointer).Elem()}}}
+	} else {
+		// the member's parts arrive as parameters: the key must be built from the ones that fill the
+		// rule-text and object-path fields of the record
+		delete(in.Models, fnName(fn))
+		for i, prm := range fn.Params {
+			args = append(args, Sym{K: fmt.Sprintf("arg%d:%s", i, prm.Name()), T: prm.Type()})
+		}
+		ruleTerm, pathTerm = "\x00none", "\x00none"
+		if i, ok := regFields["validName"]; ok {
+			ruleTerm = keyOf(args[i])
+		}
+		if i, ok := regFields["objName"]; ok {
+			pathTerm = keyOf(args[i])
+		}
+	}
 	trs := in.Explore(fn, args, 500)
 	var keys []string
 	for _, t := range trs {
@@ -142,10 +160,10 @@ func runC17Key(c *Ctx) {
 	}
 	var bad []string
 	for _, k := range keys {
-		if !strings.Contains(k, "data.validName") {
+		if !strings.Contains(k, ruleTerm) {
 			bad = append(bad, "key does not depend on the rule text: "+k)
 		}
-		if !strings.Contains(k, "data.objName") {
+		if !strings.Contains(k, pathTerm) {
 			bad = append(bad, "key depends on the rule text only ("+k+"): members with the same either=/botheq= id in different slice elements, nested objects or map entries fall into one group")
 		}
 	}
